@@ -26,7 +26,7 @@ def make_tree():
     class A(ComplexModel):
         __namespace__ = TNS
         a1 = Integer
-        a2 = Unicode
+        a2 = Unicode(sub_name='a2wire')          # travels under another name: inherited by every descendant
 
     class B(A):
         __namespace__ = TNS
@@ -44,6 +44,11 @@ def make_tree():
         __namespace__ = TNS
         a1 = Integer
     return A, B, C, B2, Unrelated
+
+
+def wire_names(cls):
+    """field names as they travel: sub_name where declared"""
+    return [(t.Attributes.sub_name or k) for k, t in cls.get_flat_type_info(cls).items()]
 
 
 def make_inst(cls):
@@ -80,15 +85,21 @@ def polymorphic_target(c):
     c.check('target_class', got_cls is (type(inst) if should else base), detail=(repr(got_cls), should))
 
 
-def _svc(got):
+def _svc(got, root='A'):
+    """root: which class the signatures declare -- 'A' (the root of the tree) or 'Bvar' (a customised variant of the
+    non-root class B, and Array(B))"""
     A, B, C, B2, U = make_tree()
     made = {}
+    R = A if root == 'A' else B.customize(min_occurs=1)
+    RA = Array(A) if root == 'A' else Array(B)
 
     def get(ctx, kind):
         return make_inst({'A': A, 'B': B, 'C': C, 'B2': B2}[kind])
     get._pyvc_native = True
 
     def get_many(ctx):
+        if root != 'A':
+            return [make_inst(B), make_inst(C), make_inst(C)]
         return [make_inst(A), make_inst(C), make_inst(B), make_inst(B2)]
     get_many._pyvc_native = True
 
@@ -102,8 +113,8 @@ def _svc(got):
         return items
     echo_many._pyvc_native = True
     Svc = type(ServiceBase)('Svc', (ServiceBase,), {
-        'get': rpc(Unicode, _returns=A)(get), 'get_many': rpc(_returns=Array(A))(get_many),
-        'echo': rpc(A, _returns=A)(echo), 'echo_many': rpc(Array(A), _returns=Array(A))(echo_many)})
+        'get': rpc(Unicode, _returns=R)(get), 'get_many': rpc(_returns=RA)(get_many),
+        'echo': rpc(R, _returns=R)(echo), 'echo_many': rpc(RA, _returns=RA)(echo_many)})
     return Svc, (A, B, C, B2, U)
 
 
@@ -142,9 +153,11 @@ def _mk_xml(family):
                      "values; with polymorphism off exactly the declared class' fields are transmitted")
     def ob(c):
         poly = c.choose([True, False], 'polymorphic')
-        what = c.choose(['A', 'B', 'C', 'B2', 'many'], 'returned')
+        droot = c.choose(['A', 'Bvar'], 'declared')
+        what = c.choose(['A', 'B', 'C', 'B2', 'many'] if droot == 'A' else ['B', 'C', 'many'], 'returned')
         got = []
-        Svc, (A, B, C, B2, U) = _svc(got)
+        Svc, (A, B, C, B2, U) = _svc(got, droot)
+        D = A if droot == 'A' else B           # the class the signatures declare (its original)
         app = Application([Svc], TNS, in_protocol=P(polymorphic=poly), out_protocol=P(polymorphic=poly))
         wsgi = WsgiApplication(app)
         def wrap(b):
@@ -160,20 +173,20 @@ def _mk_xml(family):
         root = etree.fromstring(resp)
         result = root.xpath('//*[local-name()="getResult" or local-name()="get_manyResult"]')[0]
         elts = [result] if what != 'many' else list(result)
-        want_classes = {'A': [A], 'B': [B], 'C': [C], 'B2': [B2], 'many': [A, C, B, B2]}[what]
+        want_classes = {'A': [A], 'B': [B], 'C': [C], 'B2': [B2], 'many': [A, C, B, B2] if droot == 'A' else [B, C, C]}[what]
         for elt, cls in zip(elts, want_classes):
             names = [ch.tag.split('}')[-1] for ch in elt]
-            flat = list(cls.get_flat_type_info(cls).keys()) if poly else list(A.get_flat_type_info(A).keys())
+            flat = wire_names(cls) if poly else wire_names(D)
             c.check('fields_ancestors_first', names == flat, detail=(cls.__name__, names, flat))
             xt = elt.get('{%s}type' % XSI)
-            if poly and cls is not A:
+            if poly and cls is not D:
                 c.check('type_marker_present', xt is not None, detail=(cls.__name__, etree.tostring(elt)[:200]))
                 if xt is not None:
                     prefix, _, local = xt.rpartition(':')
                     c.check('type_marker_resolves_in_document', elt.nsmap.get(prefix or None) == TNS and
                             local == cls.__name__, detail=(xt, dict(elt.nsmap)))
             else:
-                c.check('no_type_marker', xt is None or xt.endswith(':A') or xt == 'A', detail=xt)
+                c.check('no_type_marker', xt is None or xt.endswith(':' + D.__name__) or xt == D.__name__, detail=xt)
         # send the transmitted element(s) back -- as sent, or with the marker's prefix re-bound by the document to a
         # prefix that the receiving interface uses for another namespace (resolution must use the document's bindings)
         rebound = c.choose([False, True], 'marker_prefix_rebound_in_document')
@@ -197,7 +210,7 @@ def _mk_xml(family):
         if got:
             objs = got[0] if what == 'many' else [got[0]]
             for o, cls in zip(objs, want_classes):
-                wantc = cls if poly else A
+                wantc = cls if poly else D
                 c.check('same_class_reconstructed', type(o) is wantc or (type(o).__orig__ or type(o)) is wantc,
                         detail=(type(o).__name__, wantc.__name__))
                 ref = fields_of(make_inst(cls))
@@ -224,9 +237,11 @@ def _mk_dict(family, oid=None):
                      "polymorphism off: exactly the declared class' fields")
     def ob(c):
         poly = c.choose([True, False], 'polymorphic')
-        what = c.choose(['A', 'B', 'C', 'B2', 'many'], 'returned')
+        droot = c.choose(['A', 'Bvar'], 'declared')
+        what = c.choose(['A', 'B', 'C', 'B2', 'many'] if droot == 'A' else ['B', 'C', 'many'], 'returned')
         got = []
-        Svc, (A, B, C, B2, U) = _svc(got)
+        Svc, (A, B, C, B2, U) = _svc(got, droot)
+        D = A if droot == 'A' else B
         mk = lambda: P(ignore_wrappers=False, polymorphic=poly)
         app = Application([Svc], TNS, in_protocol=mk(), out_protocol=mk())
         wsgi = WsgiApplication(app)
@@ -254,22 +269,22 @@ def _mk_dict(family, oid=None):
         (rk, rv), = doc.items()
         (vk, val), = rv.items()
         vals = [val] if what != 'many' else val
-        want_classes = {'A': [A], 'B': [B], 'C': [C], 'B2': [B2], 'many': [A, C, B, B2]}[what]
+        want_classes = {'A': [A], 'B': [B], 'C': [C], 'B2': [B2], 'many': [A, C, B, B2] if droot == 'A' else [B, C, C]}[what]
         for v, cls in zip(vals, want_classes):
-            wantc = cls if poly else A
+            wantc = cls if poly else D
             c.check('wrapper_key_is_runtime_class', isinstance(v, dict) and list(v.keys()) == [wantc.__name__],
                     detail=(list(v.keys()) if isinstance(v, dict) else v, wantc.__name__))
             if isinstance(v, dict) and len(v) == 1:
                 body, = v.values()
-                c.check('fields_ancestors_first', list(body.keys()) == list(wantc.get_flat_type_info(wantc).keys()),
-                        detail=(list(body.keys()), list(wantc.get_flat_type_info(wantc).keys())))
+                c.check('fields_ancestors_first', list(body.keys()) == wire_names(wantc), detail=(list(body.keys()),
+                                                                                                   wire_names(wantc)))
         back = {'echo': {'a': val}} if what != 'many' else {'echo_many': {'items': val}}
         out2, status2, resp2 = _call(c, wsgi, enc(back), ctype)
         c.check('second_call_ok', out2.returned and status2.startswith('200'), detail=(status2, resp2[:300]))
         if got:
             objs = got[0] if what == 'many' else [got[0]]
             for o, cls in zip(objs, want_classes):
-                wantc = cls if poly else A
+                wantc = cls if poly else D
                 c.check('same_class_reconstructed', (type(o).__orig__ or type(o)) is wantc, detail=(type(o).__name__,
                                                                                                    wantc.__name__))
                 ref = fields_of(make_inst(cls))
